@@ -54,14 +54,14 @@ KIND(bits) {
             hex_print((const uint8_t *) &d, sizeof(d));
             printf("\n");
         } else if (line[0] == 'n') {
-            alarm(2);                 /* a hang ends the process (SIGALRM): the caller re-runs the line forked */
+            alarm(5);                 /* a hang ends the process (SIGALRM): the caller re-runs the line forked */
             bits_case(line);
             alarm(0);
         } else if (line[0] == 'c') {
             fflush(stdout);
             pid_t pid = fork();
             if (pid == 0) {
-                alarm(2);
+                alarm(10);   /* generous: an ASan report under load takes time */
                 int rc = bits_case(line);
                 fflush(stdout);
                 _exit(rc);
